@@ -531,3 +531,11 @@ def in_range(base, idx):
     if isinstance(base, RangeB):
         return z3.And(idx >= base.lo, idx < base.hi)
     return z3.And(idx >= 0, idx < z3.Length(base))
+
+
+_JSON_TEXT = [0]
+
+
+def fresh_json_text():
+    _JSON_TEXT[0] += 1
+    return f'json_text!{_JSON_TEXT[0]}'
